@@ -45,6 +45,10 @@ def plan(pid, tier, seed):
                 "assumptions": ["ids resurrected by spawn_at with a lower generation are excepted (documented hazard)"]}
     if pid == "C03":
         return {"jobs": world_jobs(["mixed", "malformed", "batch"], tier, seed, 100, 40000), "trusted_base": WORLD_TRUST}
+    if pid == "C10":
+        return {"jobs": world_jobs(["mixed", "containers"], tier, seed, 150, 40000), "trusted_base": WORLD_TRUST,
+                "assumptions": ["bundle representations are exercised through tuples in several field orders, dynamic EntityBuilder bundles, "
+                                "EntityBuilderClone results, taken entities and command-buffer recordings; derived Bundle structs only via tuples"]}
     if pid == "C09":
         return {"jobs": world_jobs(["malformed"], tier, seed, 200, 40000), "trusted_base": WORLD_TRUST}
     if pid == "C16":
